@@ -81,6 +81,25 @@ mod verif_c04 {
         core::mem::forget(slab);
     }
 
+    // enc_indices (what the decoder's rebuild and the constraint-matrix generation use) visits the same symbols
+    #[kani::proof]
+    #[kani::unwind(30)]
+    fn c04_enc_indices_selects_rfc_symbols() {
+        let (w, p, p1) = (17, 10, 11);
+        let t = any_tuple(w, p1);
+        let mut mask = 0u32;
+        let mut count = 0u32;
+        crate::constraint_matrix::enc_indices(t, w, p, p1, |i| {
+            mask ^= 1u32 << i;
+            count += 1;
+        });
+        assert!(mask == rfc_mask(w, p, p1, t), "C04_ENC_INDICES_EQUALS_RFC");
+        assert!(count == t.0 + t.3, "C04_ENC_INDICES_COUNT");
+        // W and P1 prime => no index is visited twice: the xor-mask has exactly d + d1 bits
+        assert!(mask.count_ones() == count, "C04_ENC_INDICES_DISTINCT");
+        kani::cover!(t.0 == 15 && t.3 == 3, "reachable");
+    }
+
     // the same through a permuted slab (the encoder's slab carries the solver's reorder map)
     #[kani::proof]
     #[kani::unwind(30)]
